@@ -113,8 +113,8 @@ func runVersionTestMode(c verCase, pc *vp.PluginCfg) map[string]interface{} {
 	out["line_version"] = rc.ProtocolVersion
 	out["line_proto"] = string(rc.Protocol)
 	cl := plugin.NewClient(&plugin.ClientConfig{
-		HandshakeConfig:  plugin.HandshakeConfig{MagicCookieKey: vp.CookieKey, MagicCookieValue: vp.CookieValue},
-		Plugins:          vp.Set("grpc", "host"), Logger: hclog.NewNullLogger(), Reattach: rc,
+		HandshakeConfig: plugin.HandshakeConfig{MagicCookieKey: vp.CookieKey, MagicCookieValue: vp.CookieValue},
+		Plugins:         vp.Set("grpc", "host"), Logger: hclog.NewNullLogger(), Reattach: rc,
 		AllowedProtocols: []plugin.Protocol{plugin.ProtocolNetRPC, plugin.ProtocolGRPC}})
 	defer cl.Kill()
 	func() {
@@ -217,7 +217,7 @@ func runVersionCase(c verCase, bin string) map[string]interface{} {
 				rc := plugin.NewClient(&plugin.ClientConfig{
 					HandshakeConfig: plugin.HandshakeConfig{MagicCookieKey: vp.CookieKey, MagicCookieValue: vp.CookieValue},
 					Plugins:         vp.Set("grpc", "host"), Logger: hclog.NewNullLogger(),
-					Reattach:        &plugin.ReattachConfig{Protocol: plugin.Protocol(parts[4]), ProtocolVersion: v, Addr: addr, Pid: cmd.Process.Pid},
+					Reattach:         &plugin.ReattachConfig{Protocol: plugin.Protocol(parts[4]), ProtocolVersion: v, Addr: addr, Pid: cmd.Process.Pid},
 					AllowedProtocols: []plugin.Protocol{plugin.ProtocolNetRPC, plugin.ProtocolGRPC}})
 				func() {
 					// (the plugin is our child: reap it first, a zombie still counts as running for the reattached client)
